@@ -85,7 +85,7 @@ func c09Tables(p *Prog, r *Report) {
 	})
 	usesTable := false
 	eachInstr(fn, func(in ssa.Instruction) {
-		if ld, ok := in.(*ssa.UnOp); ok && ld.X == g {
+		if ld, ok := in.(*ssa.UnOp); ok && sameGlobal(ld.X, g) {
 			usesTable = true
 		}
 	})
